@@ -165,24 +165,29 @@ func buildBlobOfSize(typ uint8, total int, seed uint64, st blobStyle) []byte {
 		}
 		return buildBlob(typ, nil, st2) // 0x81 typ: the smallest possible message
 	}
-	p := total - 3
-	if p < 0 {
-		p = 0
-	}
+	// Requested style first; then styles that can hit every size: the canonical one
+	// misses the sizes just above a head-width change (27, 260, 65541, 65542), a byte
+	// string with an 8-byte length head reaches every total >= 11.
 	var out []byte
-	for iter := 0; iter < 6; iter++ {
-		out = buildBlob(typ, fill(seed, p), st)
-		if len(out) == total {
-			return out
+	for _, style := range []blobStyle{st, {}, {BytesForm: xcbor.FormW8}} {
+		p := total - 3
+		for iter := 0; iter < 5; iter++ {
+			if p < 0 {
+				p = 0
+			}
+			out = buildBlob(typ, fill(seed, p), style)
+			if len(out) == total {
+				return out
+			}
+			np := p + total - len(out)
+			if np < 0 {
+				np = 0
+			}
+			if np == p {
+				break
+			}
+			p = np
 		}
-		np := p + (total - len(out))
-		if np < 0 {
-			np = 0
-		}
-		if np == p {
-			break
-		}
-		p = np
 	}
 	return out
 }
@@ -319,10 +324,10 @@ func (s *blobSide) pendingErrors() (out []string) {
 
 // stop shuts everything down and waits (bounded) for the protocol goroutines.
 func (s *blobSide) stop(wait time.Duration) (clean bool) {
+	s.mux.Stop() // muxer first, as Connection.shutdown does
 	for _, bp := range s.protos {
 		bp.P.Stop()
 	}
-	s.mux.Stop()
 	clean = true
 	deadline := time.After(wait)
 	for _, bp := range s.protos {
